@@ -365,6 +365,23 @@ HARNESSES = [
                     'a threshold are not judged (the oracle uses scipy\'s '
                     't CDF)',
             expect_reach=['written'], split=32),
+    Harness('p_value_mask_route_stage', h_marker_stage, setup=_rm_setup,
+            cases=[{'vary': ['c0', 'c3'], 'route': 'mask'}],
+            thorough_cases=[{'route': 'mask'}],
+            funcs=['p_value_mask.create_p_value_mask_file',
+                   '_create_p_value_mask_file', '_p_values_worker',
+                   '_merge_masks',
+                   'p_value_markers.find_markers_for_all_taxonomy_pairs_'
+                   'from_p_mask',
+                   'create_sparse_by_pair_marker_file_from_p_mask',
+                   '_find_markers_from_p_mask_worker', '_get_validity_mask',
+                   'markers.add_sparse_by_gene_markers_to_file'],
+            stubs=['multiprocessing -> model (workers inline)'],
+            classify=classify_stage,
+            bounds='as marker_table_stage, through the p-value-mask route '
+                   '(mask file written in chunks of 8 pairs, then markers '
+                   'from the mask)',
+            expect_reach=['written'], split=32),
     Harness('chunk_table_integer_widths', h_lookup_widths,
             cases=[{'pairs': 1}, {'pairs': 2}],
             funcs=['markers._lookup_to_sparse', 'utils.choose_int_dtype'],
